@@ -26,7 +26,8 @@ Ltac case_frame :=
   unfold to_crystal_frame_gen, rot_euler, vx, vy, vz; cbn [fst snd]; repeat split; interval with (i_prec 90).
 
 Ltac case_value :=
-  unfold index_along_core_gen, index_along_core_Ordinary, index_along_core_Extraordinary, find_roots_quadratic_monic;
+  unfold index_along_core_gen, index_along_core_Ordinary, index_along_core_Extraordinary, index_along_core_Ordinary_of,
+    index_along_core_Extraordinary_of, find_roots_quadratic_monic;
   cbv zeta; decide_branches; interval with (i_prec 120).
 
 Ltac case_residual :=
